@@ -24,8 +24,18 @@ class PYTZ(TZProvider):
         return pytz.utc.localize(dt)
 
     def localize(self, dt: datetime, tz: tzinfo) -> datetime:
-        """Localize a datetime to a timezone."""
-        return tz.localize(dt)
+        """Localize a datetime to a timezone.
+
+        RFC 5545, 3.3.5: A local time that occurs twice refers to its first
+        occurrence. A local time that does not occur is interpreted using
+        the UTC offset before the gap.
+        """
+        try:
+            return tz.localize(dt, is_dst=None)
+        except pytz.AmbiguousTimeError:
+            return min(tz.localize(dt, is_dst=True), tz.localize(dt, is_dst=False))
+        except pytz.NonExistentTimeError:
+            return max(tz.localize(dt, is_dst=True), tz.localize(dt, is_dst=False))
 
     def knows_timezone_id(self, id: str) -> bool:
         """Whether the timezone is already cached by the implementation."""
